@@ -70,12 +70,12 @@ Qed.
 
 Section Lib.
 Variable P : id -> Prop.
-Variable b : N.
-Notation GoodN := (GoodN P b).
+Variable PM : N -> Prop.
+Notation GoodN := (GoodN P PM).
 Notation GoodM := (GoodM P).
-Notation Sealed := (Sealed P b).
-Notation irpq := (irpq P b).
-Notation irp := (irp P b).
+Notation Sealed := (Sealed P PM).
+Notation irpq := (irpq P PM).
+Notation irp := (irp P PM).
 Notation OutI := (OutI P).
 Notation OutC := (OutC P).
 
@@ -131,22 +131,22 @@ Proof.
 Qed.
 
 (* ------------------------------------------------------------------ the index primitives *)
-Lemma irp_add_identifiable m p e : m <> b -> ~ P e -> irp (add_identifiable m p e).
+Lemma irp_add_identifiable m p e : ~ PM m -> ~ P e -> irp (add_identifiable m p e).
 Proof.
   intros Hm He. apply irp_modify_model; auto. intros x Hx. apply GoodM_set_idents; auto.
   apply AllV_insert; [apply GoodM_idents; auto | exact He].
 Qed.
-Lemma irp_remove_identifiable m p : m <> b -> irp (remove_identifiable m p).
+Lemma irp_remove_identifiable m p : ~ PM m -> irp (remove_identifiable m p).
 Proof.
   intros Hm. apply irp_modify_model; auto. intros x Hx. apply GoodM_set_idents; auto.
   eapply AllV_incl; [|apply GoodM_idents; eauto]. intros y. apply in_assoc_swap_remove.
 Qed.
-Lemma irp_fix_identifiables m a c : m <> b -> irp (fix_identifiables m a c).
+Lemma irp_fix_identifiables m a c : ~ PM m -> irp (fix_identifiables m a c).
 Proof.
   intros Hm. apply irp_modify_model; auto. intros x Hx. apply GoodM_set_idents; auto.
   apply fix_idents_fold. apply GoodM_idents; auto.
 Qed.
-Lemma irp_add_reference_origin m r e : m <> b -> ~ P e -> irp (add_reference_origin m r e).
+Lemma irp_add_reference_origin m r e : ~ PM m -> ~ P e -> irp (add_reference_origin m r e).
 Proof.
   intros Hm He. apply irp_modify_model; auto. intros x Hx. apply GoodM_set_origins; auto.
   pose proof (GoodM_origins_all x Hx) as Ho.
@@ -154,7 +154,7 @@ Proof.
   - apply AllV_insert; auto. apply OutI_app; [eapply AllV_get; eauto | apply OutI_one; auto].
   - apply AllV_snoc; auto. apply OutI_one; auto.
 Qed.
-Lemma irp_fix_reference_origins m a c e : m <> b -> ~ P e -> irp (fix_reference_origins m a c e).
+Lemma irp_fix_reference_origins m a c e : ~ PM m -> ~ P e -> irp (fix_reference_origins m a c e).
 Proof.
   intros Hm He. unfold fix_reference_origins. destruct (bytes_eqb a c); [apply irp_ro; ro_tac|].
   apply irp_modify_model; auto. intros x Hx. apply GoodM_set_origins; auto.
@@ -178,7 +178,7 @@ Proof.
   - apply AllV_insert; auto. apply OutI_app; [eapply AllV_get; eauto | apply OutI_one; auto].
   - apply AllV_snoc; auto. apply OutI_one; auto.
 Qed.
-Lemma irp_remove_reference_origin m r e : m <> b -> irp (remove_reference_origin m r e).
+Lemma irp_remove_reference_origin m r e : ~ PM m -> irp (remove_reference_origin m r e).
 Proof.
   intros Hm. apply irp_modify_model; auto. intros x Hx. apply GoodM_set_origins; auto.
   pose proof (GoodM_origins_all x Hx) as Ho.
@@ -200,7 +200,7 @@ Proof.
   intros a ->. eapply HQ; eauto.
 Qed.
 
-Lemma model_walk_out f : forall i w m w', Sealed w -> ~ P i -> model_walk f i w = Val (OK m, w') -> m <> b.
+Lemma model_walk_out f : forall i w m w', Sealed w -> ~ P i -> model_walk f i w = Val (OK m, w') -> ~ PM m.
 Proof.
   induction f as [|f IH]; intros i w m w' S Hi H; [discriminate H|]. cbn [model_walk] in H.
   apply wbind_inv in H as [(n & w1 & E & H) | (e & E & [=])].
@@ -208,10 +208,10 @@ Proof.
   destruct (proj1 (proj2 S) i n Hi Hn) as (_ & Hp & Hb).
   destruct (n_parent n) as [|k|p] eqn:Ep.
   - apply wfail_inv in H as ([=] & _).
-  - apply wret_inv in H as ([= <-] & _). intros ->. apply Hb. reflexivity.
+  - apply wret_inv in H as ([= <-] & _). apply (Hb m). reflexivity.
   - eapply (IH p); [exact S | apply Hp; reflexivity | exact H].
 Qed.
-Lemma irpq_model_of h : ~ P h -> irpq (fun m => m <> b) (model_of h).
+Lemma irpq_model_of h : ~ P h -> irpq (fun m => ~ PM m) (model_of h).
 Proof.
   intros Hh. apply irpq_ro_post; [apply ro_model_of|]. intros w m S E. unfold model_of in E.
   apply wbind_inv in E as [(w0 & w1 & E1 & E) | (e & E1 & [=])]. apply wget_inv in E1 as ([= ->] & ->).
@@ -319,7 +319,7 @@ Proof.
 Qed.
 Lemma irpq_get_sub_element h name : ~ P h -> irpq (OutO P) (get_sub_element h name).
 Proof.
-  intros Hh. unfold get_sub_element. apply irpq_get; auto. intros n Hn. apply irpq_first_named. apply GoodN_OutC with (b := b). exact Hn.
+  intros Hh. unfold get_sub_element. apply irpq_get; auto. intros n Hn. apply irpq_first_named. apply GoodN_OutC with (PM := PM). exact Hn.
 Qed.
 
 Lemma irpq_first_named_item name item l : OutC l -> irpq (OutO P) (first_named_item T name item l).
